@@ -103,6 +103,12 @@ def run(ctx):
     # (plain results, responses consumed to the end: generator bodies and aborts have their own clauses in C13)
     scens = pc.export_scenarios(ctx, 'events') + [s for s in pc.export_scenarios(ctx, 'wsgitiny' if ctx.quick else 'wsgiq')
                                                  if s['inj'].get('res', 'plain') == 'plain' and s['abort'] == 99]
+    # the in-process transport (NullServer) is a ServerBase too: the same calls made directly
+    import copy
+    for s0 in [x for x in scens if x['cfg']['tr'] == 'base' and x['cfg']['family'] == 'xml' and x['req']['class'] == 'valid' and x['inj'].get('fin', 'ok') == 'ok']:
+        s2 = copy.deepcopy(s0)
+        s2['cfg']['tr'] = 'null'
+        scens.append(s2)
     for s in scens:
         if s['cfg']['tr'] == 'wsgi' and s['cfg']['maxlen'] <= 4:
             s['units'] = True          # lengths of the small WSGI family are in units (drive_pipeline.UNIT bytes)
@@ -117,7 +123,7 @@ def run(ctx):
                       'clauses %s fail on the recorded history of scenario %s' % (sorted(cl), pc.scen_key(s)),
                       {'scenario': s, 'history': recs[i]['obs'], 'k': recs[i]['k']})
     # exact conformance with the model is computed for the event family (the WSGI family is C13's)
-    erecs = [r for r in recs if not r['scen'].get('units')]
+    erecs = [r for r in recs if not r['scen'].get('units') and r['scen']['cfg']['tr'] != 'null']
     acc = pc.conformance(ctx, erecs, 'events')
     rej = [i for i in range(len(erecs)) if i not in acc]
     if rej:
